@@ -30,7 +30,7 @@ def _values_for(value, rng, pool):
         return [('len1', 'a'), ('len7', 'abc-123'), ('len255', 'x' * 255), ('len256', 'y' * 256), ('len300', 'z1' * 150), ('len600', 'w' * 600),
                 ('doubled', value + value),
                 # a last character that is also a separator of the enclosing grammar
-                ('ends-eq', (value or 'a') + '='), ('ends-colon', (value or 'a') + ':'), ('ends-slash', (value or 'a') + '/')]
+                ('inner-2sp', 'a  b'), ('ends-eq', (value or 'a') + '='), ('ends-colon', (value or 'a') + ':'), ('ends-slash', (value or 'a') + '/')]
     if isinstance(value, datetime.datetime):
         utc = datetime.timezone.utc
         # aware datetimes only: the parsers produce aware (UTC) datetimes, a naive one has no defined instant
